@@ -4,40 +4,17 @@ import (
 	"encoding/binary"
 	"math/big"
 	"math/rand"
+	. "zharness/hz"
 
 	"github.com/zenon-network/go-zenon/chain/nom"
 	"github.com/zenon-network/go-zenon/common/types"
 	"github.com/zenon-network/go-zenon/pow"
 )
 
-func init() { runners["pow"] = runPow }
-
-func boundaryU64(rng *rand.Rand) uint64 {
-	switch rng.Intn(10) {
-	case 0:
-		return uint64(rng.Intn(4))
-	case 1:
-		k := uint(rng.Intn(64))
-		return (uint64(1) << k) + uint64(rng.Intn(3)) - 1
-	case 2:
-		return ^uint64(0) - uint64(rng.Intn(3))
-	case 3:
-		return (uint64(1) << 63) + uint64(rng.Intn(5)) - 2
-	case 4:
-		return 141750000 + uint64(rng.Intn(5)) - 2 // around MaxDifficultyForAccountBlock
-	case 5:
-		return uint64(rng.Intn(1 << 20))
-	case 6:
-		return rng.Uint64() >> uint(rng.Intn(64))
-	default:
-		return rng.Uint64()
-	}
-}
-
 func runPow(rng *rand.Rand, n int, out *Out, _ []string) {
 	two64 := new(big.Int).Lsh(big.NewInt(1), 64)
 	for i := 0; i < n; i++ {
-		d := boundaryU64(rng)
+		d := BoundaryU64(rng)
 		var b nom.AccountBlock
 		rng.Read(b.Address[:])
 		rng.Read(b.PreviousHash[:])
